@@ -72,6 +72,7 @@ package stack
 //@ func (LinkEndpoint).WritePacket props C07 C06 C11
 //@   nobody
 //@   requires implies(protocol == header.IPv4ProtocolNumber, len(hdr.buf) - hdr.usedIdx >= 20 && int(be16(hdr.buf, hdr.usedIdx + 2)) == len(hdr.buf) - hdr.usedIdx + payload.size)
+//@   requires implies(protocol == header.IPv4ProtocolNumber, oc16(wsum16(hdr.buf, hdr.usedIdx, hdr.usedIdx + 20)) == 0)
 //@   modifies everything()
 
 //@ func (*Route).Resolve props C07
